@@ -223,6 +223,180 @@ def deep_chain(env, rec, depth, mode, width):
     rec.maxi("max:chain_depth_rendered", depth)
 
 
+# ---------------------------------------------------------------------------------------
+# Markup shard: ordinary HTML at the root of a component - void elements, comments, inline <script> / <style> whose text
+# contains "<" or ">" - decided by construction: every top-level element start tag of the instance carries its id (child
+# components' roots both ids), nested elements none.
+K_RAW = "C14-elements-after-script-or-style-text-containing-lt"
+RAW_CONTENTS = ["if (a<b) {}", 'var s = "<div>";', "a > b {}", "x = 1;", 'var e = "</div>";', "for(i=0;i<n;i++){}", ".a::before { content: '<'; }"]
+UATTR = re.compile(r'data-u="(\d+)"')
+
+
+class PU(HTMLParser):
+    def __init__(self):
+        super().__init__()
+        self.elems = []
+
+    def handle_starttag(self, tag, attrs):
+        raw = self.get_starttag_text()
+        m = UATTR.search(raw)
+        if m:
+            self.elems.append((int(m.group(1)), sorted(RAWMARK.findall(raw))))
+
+    handle_startendtag = handle_starttag
+
+
+def gen_markup(rng):
+    uid = [0]
+
+    def item(depth):
+        uid[0] += 1
+        u = uid[0]
+        r = rng.random()
+        if r < 0.30:
+            kids = [item(depth + 1) for _ in range(rng.randint(0, 2))] if depth < 2 else []
+            return ["elem", u, rng.choice(["div", "span", "section", "x-card"]), kids]
+        if r < 0.45:
+            return ["void", u, rng.choice(["br", "img", "input", "hr"])]
+        if r < 0.58:
+            return ["text", u, rng.choice(["plain words", "a &lt; b", "x"])]
+        if r < 0.66:
+            return ["comment", u, rng.choice(["note", "c < d", "-x-"])]
+        if r < 0.86:
+            return ["raw", u, rng.choice(["script", "style"]), rng.choice(RAW_CONTENTS if rng.random() < 0.5 else ["x = 1;", "a > b {}"])]
+        return ["child", u]
+
+    return {"kind": "markup", "items": [item(0) for _ in range(rng.randint(2, 6))], "mode": rng.choice(["django", "isolated"])}
+
+
+def run_markup(env, rec, case):
+    env.n += 1
+    n = env.n
+    pname, cname = f"mk{n}_p", f"mk{n}_c"
+    expected = []  # (u, spec) in document order; spec: set of "P" / ("C", k)
+    nchild = [0]
+    raws = []
+
+    def ser(items, top):
+        t = ""
+        for it in items:
+            k, u = it[0], it[1]
+            if k == "elem":
+                expected.append((u, {"P"} if top else set()))
+                t += f'<{it[2]} data-u="{u}">' + ser(it[3], False) + f"</{it[2]}>"
+            elif k == "void":
+                expected.append((u, {"P"} if top else set()))
+                t += f'<{it[2]} data-u="{u}">'
+            elif k == "text":
+                t += it[2]
+            elif k == "comment":
+                t += f"<!-- {it[2]} -->"
+            elif k == "raw":
+                expected.append((u, {"P"} if top else set()))
+                raws.append(it[3])
+                t += f'<{it[2]} data-u="{u}">{it[3]}</{it[2]}>'
+            else:
+                kk = nchild[0]
+                nchild[0] += 1
+                for cu in (9001, 9002):
+                    expected.append((cu, {("C", kk)} | ({"P"} if top else set())))
+                t += '{% component "' + cname + '" / %}'
+        return t
+
+    src = "[I{{ cid }}]" + ser(case["items"], True)
+    gcd = lambda self, **kw: {"cid": self.id}  # noqa: E731
+    Child = type(f"Mk{n}C", (env.Component,), {"template": '[J{{ cid }}]<em data-u="9001">c</em><b data-u="9002">d</b>', "get_context_data": gcd})
+    Parent = type(f"Mk{n}P", (env.Component,), {"template": src, "get_context_data": gcd})
+    env.registry.register(cname, Child)
+    env.registry.register(pname, Parent)
+    lt_raw = any("<" in r for r in raws)
+    try:
+        with env.override_settings(COMPONENTS={"context_behavior": case["mode"], "autodiscover": False}):
+            try:
+                raw = Parent.render(render_dependencies=False)
+            except Exception as e:  # noqa: BLE001
+                detail = {"what": f"{type(e).__name__}: {str(e)[:200]}", "template": src}
+                # (the same mechanism: the "<" inside the script / style text is taken for the start of a tag)
+                if isinstance(e, ValueError) and ("ill-formed document" in str(e) or "syntax error" in str(e)) and lt_raw and rec.known_finding(K_RAW, case, detail):
+                    return True
+                rec.violation("markup-render-raised-" + type(e).__name__, case, detail)
+                return True
+    finally:
+        for nm in (pname, cname):
+            try:
+                env.registry.unregister(nm)
+            except Exception:  # noqa: BLE001
+                pass
+    rec.observe("pages-parsed")
+    raw = e1run.RENDERED.sub("", str(raw))
+    pid = IDTOK.findall(raw)
+    cids = re.findall(r"\[J(\w+)\]", raw)
+    if len(pid) != 1 or len(cids) != nchild[0]:
+        rec.violation("markup-id-echo-count", case, {"what": f"{len(pid)} parent echoes, {len(cids)} child echoes for {nchild[0]} children", "html": raw[:400]})
+        return True
+    if len(set(pid + cids)) != len(pid + cids):
+        rec.inconc("duplicate-render-id-from-rng")
+        return True
+    p = PU()
+    p.feed(raw)
+    p.close()
+    want = [(u, sorted(pid[0] if x == "P" else cids[x[1]] for x in spec)) for u, spec in expected]
+    rec.count("markup_elements_compared", len(want))
+    rec.observe("elements-compared", len(want))
+    if p.elems != want:
+        detail = {"what": f"expected {want} got {p.elems}", "template": src, "html": raw[:500]}
+        # listed finding: the root-element parser (djc_core_html_parser) does not treat <script> / <style> as raw text, so a
+        # "<" inside stops it finding the elements that follow: they (and child placeholders after it) lack THIS instance's id
+        # (a "</x>" look-alike in the text is taken for an end tag: the depth count drops, and NESTED elements after it are
+        # then taken for roots - the same id too many instead of missing)
+        if lt_raw and len(p.elems) == len(want) and all(g[0] == w[0] and (set(g[1]) ^ set(w[1])) <= {pid[0]} for g, w in zip(p.elems, want)):
+            first_bad = next(i for i, (g, w) in enumerate(zip(p.elems, want)) if g != w)
+            extra = any(set(g[1]) - set(w[1]) for g, w in zip(p.elems, want))
+            needle = "</" if extra else "<"
+            raw_before = any(k == "raw" and needle in c for (k, c, pos) in _raw_positions(case["items"]) if pos <= first_bad)
+            if raw_before and rec.known_finding(K_RAW, case, {"what": detail["what"][:300]}):
+                return True
+        # the bogus tag can also swallow a following start tag or get the attribute written into an END tag
+        # (`</style data-djc-id-..>`), after which the document no longer parses into the same elements: attributed when
+        # everything up to and including the first script / style element with "<" in its text is right
+        if lt_raw and len(p.elems) != len(want):
+            first_raw = min(pos for (k, c, pos) in _raw_positions(case["items"]) if k == "raw" and "<" in c)
+            if p.elems[: first_raw + 1] == want[: first_raw + 1] and rec.known_finding(K_RAW, case, {"what": detail["what"][:300]}):
+                return True
+        rec.violation("markup-wrong-root-markers", case, detail)
+    return True
+
+
+def run_witnesses(spec, rec):
+    """Stored witness of the listed finding: KNOWN-FINDING while the defect is there, silent once it is repaired."""
+    env = e1run.E1Env()
+    for f in spec["findings"]:
+        for case in f["witness"]["cases"]:
+            rec.case(("witness", f["id"], str(case)[:40]), nontrivial=False)
+            run_markup(env, rec, case)
+    rec.observe("dynamic-pages-parsed")
+
+
+def _raw_positions(items):
+    """(kind, content, number of data-u elements that start before or at this item) in document order"""
+    out = []
+    cnt = [0]
+
+    def walk(its):
+        for it in its:
+            k = it[0]
+            if k in ("elem", "void", "raw"):
+                cnt[0] += 1
+                out.append((k, it[3] if k == "raw" else "", cnt[0] - 1))
+                if k == "elem":
+                    walk(it[3])
+            elif k == "child":
+                cnt[0] += 2
+
+    walk(items)
+    return out
+
+
 def plan(tier, seed):
     n = 9000 if tier == "quick" else 100000
     nshard = 14 if tier == "quick" else 30
@@ -230,6 +404,7 @@ def plan(tier, seed):
     depths = [50, 120, 300] if tier == "quick" else [500, 1000, 2000]
     for d in depths:
         shards.append({"name": f"chain_{d}", "kind": "chain", "depth": d})
+    shards.append({"name": "markup", "kind": "markup", "n": 2000 if tier == "quick" else 60000})
     return shards
 
 
@@ -241,6 +416,15 @@ def run_shard(spec, rec):
             for width in (1, 3):
                 rec.case(("chain", spec["depth"], mode, width), nontrivial=True)
                 deep_chain(env, rec, spec["depth"], mode, width)
+        return
+    if spec["kind"] == "markup":
+        import json as _json
+
+        rng = random.Random(f"{spec['seed']}-c14-markup")
+        for i in range(spec["n"]):
+            case = gen_markup(rng)
+            run_markup(env, rec, case)
+            rec.case(("markup", _json.dumps(case, sort_keys=True)), nontrivial=sum(1 for it in case["items"] if it[0] in ("elem", "void", "raw", "child")) >= 2)
         return
     rng = random.Random(f"{spec['seed']}-c14-{spec['idx']}")
     for i in range(spec["n"]):
@@ -267,5 +451,7 @@ def replay(case, rec):
     rec.case(("replay", 2))
     if case.get("kind") == "chain":
         deep_chain(env, rec, case["depth"], case["mode"], case["width"])
+    elif case.get("kind") == "markup":
+        run_markup(env, rec, case)
     else:
         check_program(env, rec, case["program"], case.get("seed"))
